@@ -74,6 +74,7 @@ const c13Template = `script S {
 	}
 	cmd2(@22@ + 1, (@23@))
 	cmd3(item=@30@, 5, n = @31@)
+	cmd4(@32@ (3), @33@(ROUTE))
 	if (avfix(@11@, q) < @12@) {
 		g
 	}
@@ -106,7 +107,7 @@ mart Mt {
 }
 `
 
-const c13Sites = 32
+const c13Sites = 34
 
 // sites where a value with parentheses cannot be written out literally
 var c13NoParens = map[int]bool{28: true, 29: true, 26: true, 27: true, 24: true, 25: true, 21: true, 19: true, 20: true, 2: true, 3: true, 4: true, 5: true, 6: true, 7: true, 9: true, 10: true, 12: true, 14: true, 15: true, 16: true, 18: true}
@@ -438,7 +439,7 @@ func runC13(tier string) int {
 	r.Assume("values with parentheses are only used at sites where nested parentheses can be written out literally (command arguments, value(...))",
 		"const lines are replaced by blank lines so that line markers stay comparable")
 	return r.Finish(r.Get("evaluations"), r.Get("nontrivial"),
-		"17 definition sets (a value naming a constant that is defined later; single token, multi-token, parenthesised, const from const two levels deep, hex, negative, multi-byte value; constant names with a non-ASCII first letter, a non-ASCII letter inside, a leading underscore, lower case with digits) x every single use site, every pair and triple (thorough: quadruple) and all 32 documented use sites (incl. the var argument of AutoVar commands with var_name_arg_position 0 and 1, and command arguments written name=CONST) (five of them inside a larger expression) at once (command argument incl. nested, flag/var/defeated operands, comparison values incl. value(), switch operand and case value, AutoVar argument and comparison, goto target, map-script table var/value and inline body, mart item) + 9 non-positions (command name, movement step, label, moves() step, text content, script/text/mapscripts names, raw, poryswitch case label selected by -s) + use before definition (one site, and every site at once followed by the definition and a use at each site) + redefinition + every identifier-like literal of the compiler's own source as a constant's name and as its value at every site + constant trees (a base of T tokens for every T up to a bound, two extensions, constants composed from the first extension defined before / after the second) + chains of K constants and K independent constants for every K up to the bound in the coverage; outputs compared byte for byte with line markers on, optimize on/off; also every program of the control-flow families (C01 / C03 / C04 bounds) with every operand, comparison value and case value written as a constant; non-trivial = multi-token or chained definition")
+		"17 definition sets (a value naming a constant that is defined later; single token, multi-token, parenthesised, const from const two levels deep, hex, negative, multi-byte value; constant names with a non-ASCII first letter, a non-ASCII letter inside, a leading underscore, lower case with digits) x every single use site, every pair and triple (thorough: quadruple) and all 34 documented use sites (incl. the var argument of AutoVar commands with var_name_arg_position 0 and 1, command arguments written name=CONST and constants directly followed by a parenthesis) (five of them inside a larger expression) at once (command argument incl. nested, flag/var/defeated operands, comparison values incl. value(), switch operand and case value, AutoVar argument and comparison, goto target, map-script table var/value and inline body, mart item) + 9 non-positions (command name, movement step, label, moves() step, text content, script/text/mapscripts names, raw, poryswitch case label selected by -s) + use before definition (one site, and every site at once followed by the definition and a use at each site) + redefinition + every identifier-like literal of the compiler's own source as a constant's name and as its value at every site + constant trees (a base of T tokens for every T up to a bound, two extensions, constants composed from the first extension defined before / after the second) + chains of K constants and K independent constants for every K up to the bound in the coverage; outputs compared byte for byte with line markers on, optimize on/off; also every program of the control-flow families (C01 / C03 / C04 bounds) with every operand, comparison value and case value written as a constant; non-trivial = multi-token or chained definition")
 }
 
 var (
